@@ -215,7 +215,8 @@ class CmdRun:
             e._runstate_paused = f[1] == "1"
             return "ok | " + self.obs()
         if f[0] == "sim":
-            e.tags[f"T{int(f[1])}"].simulate_value(1, self.clock.now)
+            # even tags are simulated to the value they really have (0), odd ones to another value
+            e.tags[f"T{int(f[1])}"].simulate_value(0 if int(f[1]) % 2 == 0 else 1, self.clock.now)
             return "ok | " + self.obs()
         raise ValueError("bad op " + line)
 
